@@ -6,6 +6,7 @@ import os
 import random
 import shutil
 import tempfile
+import time
 import zipfile
 
 from harness.common import Ck, coq_list, coq_str, coq_bytes, parse_coq_N_list
@@ -28,7 +29,11 @@ Definition obs (b : backend) (fs : list file) (qs folders : list str) : list (li
   [map (fun q => code (lookup b fs q)) qs; map (fun q => if exists_ b fs q then [1] else [0]) qs; map (fun q => code (open_ b fs q)) qs]
   ++ map (fun f => map fst (walk b fs f)) folders.
 Definition cfg_of (k : N) : backend := match k with 0 => virtual_cfg | 1 => zip_cfg | _ => vpk_cfg end.
-Definition raw_obs (fs : list file) (qs : list str) : list (list N) := map (fun q => code (raw_lookup fs q)) qs.
+Definition raw_obs (fs : list file) (qs folders : list str) : list (list (list N)) :=
+  [map (fun q => code (raw_lookup_ops raw_get_ops fs q)) qs;
+   map (fun q => match raw_lookup_ops raw_exists_ops fs q with Some _ => [1] | None => [0] end) qs;
+   map (fun q => code (raw_lookup_ops raw_open_ops fs q)) qs]
+  ++ map (fun f => map fst (raw_walk raw_walk_ops fs f)) folders.
 Definition mk_chain (ms : list ((N * list file * str) * bool)) : list member :=
   fold_left (fun acc x => add_sys chain_prio_index (snd x) (member_of (cfg_of (fst (fst (fst x)))) (snd (fst (fst x))) (snd (fst x))) acc) ms [].
 Definition ordered (ms : list member) (fwd : bool) := if fwd then ms else rev ms.
@@ -88,6 +93,31 @@ def spellings(rng: random.Random, name: str) -> list[str]:
     return list(dict.fromkeys(res))
 
 
+def path_spellings(rng: random.Random, name: str, is_file: bool = True) -> list[tuple[str, str]]:
+    """(spelling, class): the same path written with redundant separators or dot segments, with either slash."""
+    segs = name.split('/')
+    out = [('./' + name, 'dot-segment')]
+    if len(segs) > 1:
+        i = rng.randrange(1, len(segs))
+        out.append(('/'.join(segs[:i]) + '//' + '/'.join(segs[i:]), 'doubled-slash'))
+        out.append(('/'.join(segs[:i]) + '/./' + '/'.join(segs[i:]), 'dot-segment'))
+        out.append(('/'.join(segs[:i]) + '/../' + '/'.join(segs[i - 1:]), 'dotdot-segment'))
+    else:
+        out.append((name + '/../' + name, 'dotdot-segment'))
+    out.append((name + '/', 'trailing-slash'))
+    out.append((name + '/.', 'dot-segment'))
+    res = []
+    for sp, cls in out:
+        res.append((sp, cls))
+        res.append((sp.replace('/', '\\'), cls + '-backslash'))
+    if not is_file:
+        res = [(sp, cls) for sp, cls in res if not cls.startswith('trailing-slash') or '\\' in sp]
+    return res
+
+
+NORM_CLASSES = ('dot-segment', 'doubled-slash', 'dotdot-segment', 'trailing-slash')
+
+
 def folder_candidates(rng: random.Random, files) -> list[tuple[str, str]]:
     """(folder argument, class of the argument)."""
     out: list[tuple[str, str]] = [('', 'root')]
@@ -108,6 +138,10 @@ def folder_candidates(rng: random.Random, files) -> list[tuple[str, str]]:
         first = d.split('/')[0]
         if len(first) > 2:
             out.append((first[:2], 'partial-name'))
+    for d in sorted(dirs)[:4]:
+        for sp, cls in path_spellings(rng, d, is_file=False):
+            out.append((sp, 'unnormalised-' + cls))
+    out += [('.', 'unnormalised-root'), ('./', 'unnormalised-root'), ('.\\', 'unnormalised-root-backslash')]
     for nm, _ in files[:3]:
         out.append((nm, 'file-name'))
     out.append(('nonexistent', 'missing'))
@@ -177,7 +211,9 @@ def impl_lookup(fs, q):
     try:
         with fs.open_bin(q) as fh:
             op = fh.read()
-    except FileNotFoundError:
+    except (FileNotFoundError, IsADirectoryError):
+        # RawFileSystem.open_bin(<a directory>) raises IsADirectoryError where the others raise FileNotFoundError:
+        # an observation (docs/C19.md), the name is reported as not being a file either way
         op = None
     except Exception as e:      # noqa: BLE001
         op = f'{type(e).__name__}'
@@ -202,10 +238,24 @@ def spec_map(files) -> dict[str, list[tuple[str, bytes]]]:
 def spec_inside(folder: str, name: str) -> bool:
     """The file `name` is located inside `folder` (case and slash kind insignificant; '' = everything)."""
     f = fold(folder).rstrip('/')
+    if f and set(f.split('/')) & {'', '.', '..'}:
+        # redundant separators and dot segments do not change which folder is meant
+        f = os.path.normpath(f)
+        f = '' if f == '.' else f
     return f == '' or fold(name).startswith(f + '/')
 
 
 # ------------------------------------------------------------------------------------------------ correspondence
+def _parallel(fn, items, workers: int = 4):
+    """Evaluate independent coqc batches concurrently (each batch has its own scratch name); results in input order."""
+    from concurrent.futures import ThreadPoolExecutor
+    items = list(items)
+    if len(items) <= 1:
+        return [fn(x) for x in items]
+    with ThreadPoolExecutor(max_workers=workers) as ex:
+        return list(ex.map(fn, items))
+
+
 def _code(x) -> str:
     return coq_bytes(b'\x00') if x is None else '[' + ';'.join(['1'] + [str(c) for c in x]) + ']%N'
 
@@ -215,7 +265,7 @@ def _files_lit(files) -> str:
 
 
 def corr_backends(ck: Ck, root: str) -> None:
-    n = ck.budget(90, 900)
+    n = ck.budget(50, 600)
     cases = []
     for i in range(n):
         rng = ck.rng
@@ -228,10 +278,15 @@ def corr_backends(ck: Ck, root: str) -> None:
             for nm, _ in rng.sample(files, min(3, len(files))):
                 sp = spellings(rng, nm)
                 qs += rng.sample(sp, min(3, len(sp)))
-            qs += ['nonexistent.txt', files[0][0] + 'x', files[0][0].split('/')[0]]
+            for nm, _ in rng.sample(files, min(2, len(files))):
+                ps = [q for q, _ in path_spellings(rng, nm)]
+                qs += rng.sample(ps, min(3, len(ps)))
+                qs.append(_recase(rng, rng.choice(ps)))
+            qs = rng.sample(qs, min(12, len(qs)))
+            qs += ['nonexistent.txt', files[0][0] + 'x', files[0][0].split('/')[0], './nonexistent', '', '.']
             qs = list(dict.fromkeys(qs))
             fc = folder_candidates(rng, files)
-            folders = [f for f, _ in rng.sample(fc, min(6, len(fc)))]
+            folders = [f for f, _ in rng.sample(fc, min(7, len(fc)))]
             if '' not in folders:
                 folders.append('')
             for k, name in enumerate(['virtual', 'zip', 'vpk']):
@@ -257,31 +312,53 @@ def corr_backends(ck: Ck, root: str) -> None:
                 ck.hist('corr_backend', name)
                 if len(files) > 1 and any(w for w in walks):
                     ck.seen(('corr', name, tuple(a for a, _ in fl), tuple(qs), tuple(folders)))
-            # raw: exact names (and normpath variants)
-            rq = [nm for nm, _ in files] + [nm.upper() for nm, _ in files[:2]] + ['./' + files[0][0], files[0][0].replace('/', '//')]
-            rres = [impl_lookup(bt.fs['raw'], q) for q in rq]
-            if not any(isinstance(x, str) for r in rres for x in r):
-                cases.append((f'((3, {_files_lit(files)}), ({coq_list(coq_str(q) for q in rq)}, []), {coq_list([coq_list(_code(r[1]) for r in rres)])})',
-                              {'backend': 'raw', 'files': [(a, b.decode()) for a, b in files], 'queries': rq,
-                               'impl_lookup': [None if r[1] is None else r[1].decode() for r in rres]}))
+            # raw: the same queries and folders (exact-case semantics; os.walk's order is the OS's: listed names are
+            # put into stored order, anything unexpected is kept so that it shows as a disagreement)
+            rres = [impl_lookup(bt.fs['raw'], q) for q in qs]
+            order = {nm: i for i, (nm, _) in enumerate(files)}
+            rwalks = []
+            for f in folders:
+                w = impl_walk(bt.fs['raw'], f)
+                rwalks.append(w if isinstance(w, str) else sorted(w, key=lambda p: (order.get(p, len(order)), p)))
+            if not any(isinstance(x, str) for r in rres for x in r) and not any(isinstance(w, str) for w in rwalks):
+                exp = coq_list([coq_list(_code(r[1]) for r in rres),
+                                coq_list(('[1]%N' if r[0] else '[0]%N') for r in rres),
+                                coq_list(_code(r[2]) for r in rres)]
+                               + [coq_list(coq_str(p) for p in w) for w in rwalks])
+                cases.append((f'((3, {_files_lit(files)}), ({coq_list(coq_str(q) for q in qs)}, {coq_list(coq_str(f) for f in folders)}), {exp})',
+                              {'backend': 'raw', 'files': [(a, b.decode()) for a, b in files], 'queries': qs, 'folders': folders,
+                               'impl_lookup': [(r[0], None if r[1] is None else r[1].decode(), None if r[2] is None else r[2].decode()) for r in rres],
+                               'impl_walk': rwalks}))
                 ck.count('corr_raw_cases')
+                ck.count('corr_backend_observations', 3 * len(qs) + len(folders))
+                ck.hist('corr_backend', 'raw')
+            else:
+                ck.violation('exception-raw', 'raw backend raised an unexpected exception',
+                             {'files': [(a, b.decode()) for a, b in files], 'queries': qs, 'folders': folders,
+                              'results': repr(rres), 'walks': repr(rwalks)})
         finally:
             bt.close()
     if cases:
         ck.sample({'correspondence_case': cases[min(5, len(cases) - 1)][1]})
     bad: list[int] = []
-    for lo in range(0, len(cases), 120):
-        part = cases[lo:lo + 120]
+    _t0 = time.time()
+
+    def batch(lo: int):
+        part = cases[lo:lo + 60]
         lit = coq_list(c for c, _ in part)
         expr = ('bad_idx (fun c : (N * list file) * (list str * list str) * list (list (list N)) => '
-                'match fst (fst (fst c)) with 3 => l3_eqb [raw_obs (snd (fst (fst c))) (fst (snd (fst c)))] (snd c) '
+                'match fst (fst (fst c)) with 3 => l3_eqb (raw_obs (snd (fst (fst c))) (fst (snd (fst c))) (snd (snd (fst c)))) (snd c) '
                 '| k => l3_eqb (obs (cfg_of k) (snd (fst (fst c))) (fst (snd (fst c))) (snd (snd (fst c)))) (snd c) end) 0 ' + lit)
-        vals = ck.coq_eval(IMPORTS, [expr], name='backends', preamble=PRE)
+        return lo, ck.coq_eval(IMPORTS, [expr], name=f'backends{lo}', preamble=PRE)
+
+    for lo, vals in _parallel(batch, range(0, len(cases), 60)):
         if vals is None:
             ck.obligation('correspondence:backends', False, 'model could not be evaluated')
             ck.tie_broken.append('correspondence backends: model evaluation failed')
             return
         bad += [lo + i for i in parse_coq_N_list(vals[0])]
+    bad.sort()
+    ck.extra['corr_backends_coq_s'] = round(time.time() - _t0, 1)
     ck.obligation('correspondence:backends', not bad,
                   f'{len(cases)} (backend, file set, queries, folders) cases: generated model (vm_compute) vs real '
                   f'Virtual/Zip/VPK/Raw file systems: {len(bad)} disagreements')
@@ -364,17 +441,21 @@ def corr_chain(ck: Ck, root: str) -> None:
     if cases:
         ck.sample({'chain_correspondence_case': cases[min(3, len(cases) - 1)][1]})
     bad: list[int] = []
-    for lo in range(0, len(cases), 80):
-        part = cases[lo:lo + 80]
+
+    def batch(lo: int):
+        part = cases[lo:lo + 40]
         lit = coq_list(c for c, _ in part)
         expr = ('bad_idx (fun c : (list ((N * list file * str) * bool) * (list str * list str)) * list (list (list N)) => '
                 'l3_eqb (chain_obs (fst (fst c)) (fst (snd (fst c))) (snd (snd (fst c)))) (snd c)) 0 ' + lit)
-        vals = ck.coq_eval(IMPORTS, [expr], name='chain', preamble=PRE)
+        return lo, ck.coq_eval(IMPORTS, [expr], name=f'chain{lo}', preamble=PRE)
+
+    for lo, vals in _parallel(batch, range(0, len(cases), 40)):
         if vals is None:
             ck.obligation('correspondence:chain', False, 'model could not be evaluated')
             ck.tie_broken.append('correspondence chain: model evaluation failed')
             return
         bad += [lo + i for i in parse_coq_N_list(vals[0])]
+    bad.sort()
     ck.obligation('correspondence:chain', not bad,
                   f'{len(cases)} chains (1-4 members over Virtual/Zip/VPK, prefixes, priority flags): generated model vs '
                   f'FileSystemChain _get_file / walk_folder: {len(bad)} disagreements')
@@ -408,6 +489,14 @@ def check_backends(root: str, files, rng: random.Random, stats=None) -> list[tup
                 cls = 'exact' if q == nm else ('slash-variant' if q.replace('\\', '/') == nm else
                                                ('case-variant' if '\\' not in q else 'case-and-slash-variant'))
                 queries.append((q, cls, nm))
+        # the same path with redundant separators / dot segments (2 stored names per set, every class, both slash kinds)
+        pqueries: list[tuple[str, str, str]] = []
+        for nm, _ in files[:2]:
+            for q, cls in path_spellings(rng, nm):
+                pqueries.append((q, 'unnormalised-' + cls, nm))
+                if rng.random() < 0.3:
+                    pqueries.append((_recase(rng, q), 'unnormalised-' + cls, nm))
+        queries += pqueries
         absent = ['nonexistent.txt', files[0][0] + 'x', files[0][0][:-1]] + sorted({nm.split('/')[0] for nm, _ in files if '/' in nm})
         absent = [q for q in absent if fold(q) not in sm]
         for name in ['virtual', 'zip', 'vpk']:
@@ -429,12 +518,21 @@ def check_backends(root: str, files, rng: random.Random, stats=None) -> list[tup
                 if ex is not False or got is not None or op is not None:
                     out.append((f'lookup-{name}-phantom', f'{name}: {q!r} is not a stored file but exists={ex!r} get={got!r}',
                                 {'op': 'lookup', 'backend': name, 'files': fj, 'query': q, 'expected_bytes': None}))
-        # raw: exact names
-        for nm, b in files:
-            ex, got, op = impl_lookup(bt.fs['raw'], nm)
+        # raw: exact-case names, either slash kind, redundant separators / dot segments
+        rawq = [(nm, 'exact', nm) for nm, _ in files]
+        rawq += [(nm.replace('/', '\\'), 'slash-variant', nm) for nm, _ in files if '/' in nm]
+        rawq += pqueries
+        dfiles = dict(files)
+        for q, cls, nm in rawq:
+            if cls.startswith('unnormalised') and os.path.normpath(q.replace('\\', '/')) != nm:
+                continue      # a re-cased spelling: the directory backend is exact-case
+            b = dfiles[nm]
+            ex, got, op = impl_lookup(bt.fs['raw'], q)
+            if stats is not None:
+                stats('lookup_observations', 3)
             if ex is not True or got != b or op != b:
-                out.append(('lookup-raw-exact', f'raw: {nm!r}: exists={ex!r} get={got!r}',
-                            {'op': 'lookup', 'backend': 'raw', 'files': fj, 'query': nm, 'expected_bytes': [b.decode()]}))
+                out.append((f'lookup-raw-{cls}', f'raw: stored {nm!r} queried as {q!r}: exists={ex!r} get={got!r} open={op!r}',
+                            {'op': 'lookup', 'backend': 'raw', 'files': fj, 'query': q, 'expected_bytes': [b.decode()]}))
         for q in absent:
             ex, got, op = impl_lookup(bt.fs['raw'], q)
             if ex is not False or got is not None:
@@ -450,8 +548,8 @@ def check_backends(root: str, files, rng: random.Random, stats=None) -> list[tup
         # ---- walks
         for folder, fcls in folder_candidates(rng, files):
             for name in BACKENDS:
-                if name == 'raw' and fcls in ('case-variant', 'backslash'):
-                    continue     # the directory backend is exact-case (and '\\' is no separator on this platform)
+                if name == 'raw' and fcls == 'case-variant':
+                    continue     # the directory backend is exact-case
                 w = impl_walk(bt.fs[name], folder)
                 if stats is not None:
                     stats('walk_observations', 1)
@@ -460,7 +558,8 @@ def check_backends(root: str, files, rng: random.Random, stats=None) -> list[tup
                                 {'op': 'walk', 'backend': name, 'files': fj, 'folder': folder}))
                     continue
                 if name == 'raw':
-                    fe = folder.rstrip('/')
+                    fe = os.path.normpath(folder.replace('\\', '/')) if fcls.startswith('unnormalised') else folder.replace('\\', '/').rstrip('/')
+                    fe = '' if fe == '.' else fe
                     exp = sorted(nm for nm, _ in files if fe == '' or nm.startswith(fe + '/'))
                     gotn = sorted(w)
                     cmp_got, cmp_exp = gotn, exp
@@ -473,6 +572,8 @@ def check_backends(root: str, files, rng: random.Random, stats=None) -> list[tup
                     dup = len(set(cmp_got)) != len(cmp_got)
                     if dup and not extra and not missing:
                         kind = 'lists-a-name-twice'
+                    elif fcls.startswith('unnormalised'):
+                        kind = 'folder-' + fcls
                     elif fcls == 'root':
                         kind = 'root-folder-incomplete'
                     elif extra and fcls == 'partial-name':
@@ -778,7 +879,11 @@ def run(ck: Ck) -> None:
             obs[f'{short}_walk_iterates_folded_dict'] = f'walk_over_dict {cfg}'
             obs[f'{short}_walk_no_exact_case_prefilter'] = f'negb (prefilter_case_sensitive {cfg})'
         obs['virtual_walk_root_is_not_dot'] = 'negb (folder_root_is_dot virtual_cfg)'
+        for short, cfg in (('virtual', 'virtual_cfg'), ('zip', 'zip_cfg'), ('vpk', 'vpk_cfg')):
+            obs[f'{short}_keys_normalise_every_spelling'] = f'backend_keys_norm {cfg}'
         obs['raw_delegates_to_os'] = 'raw_is_os_exact'
+        for what in ('get', 'exists', 'open', 'walk'):
+            obs[f'raw_{what}_converts_slashes_only'] = f'raw_ops_ok raw_{what}_ops'
         obs['chain_priority_inserts_first'] = 'Nat.eqb chain_prio_index 0'
         obs['chain_get_in_member_order'] = 'chain_get_forward'
         obs['chain_get_joins_prefix'] = 'match chain_get_join_ops with cons OSlash nil => true | _ => false end'
@@ -813,6 +918,11 @@ def run(ck: Ck) -> None:
             ck.explain(f'instance:{short}_walk_no_exact_case_prefilter')
         if any_key(f'lookup-{short}-'):
             ck.explain(f'instance:{short}_keys_case_and_slash_insensitive')
+        if any_key(f'lookup-{short}-unnormalised', f'walk-{short}-folder-unnormalised'):
+            ck.explain(f'instance:{short}_keys_normalise_every_spelling')
+    for what, sub in (('get', 'lookup-raw-'), ('exists', 'lookup-raw-'), ('open', 'lookup-raw-'), ('walk', 'walk-raw-')):
+        if any_key(sub):
+            ck.explain(f'instance:raw_{what}_converts_slashes_only')
     if any_key('chain-walk-name-not-relative-to-prefix'):
         ck.explain('instance:chain_walk_names_relative_to_prefix')
     if any_key('chain-get-not-first-match'):
